@@ -25,7 +25,7 @@ TK == 1..MaxK
 SeqSet(s) == {s[i] : i \in 1..Len(s)}
 Zero == [k \in TK |-> 0]
 
-TraceInit == l = 1 /\ st = Zero /\ lt = Zero /\ hold = <<>> /\ li = 0 /\ Init /\ TLCSet(1, 0)
+TraceInit == l = 1 /\ st = Zero /\ lt = Zero /\ hold = <<>> /\ li = 0 /\ Init /\ TLCSet(1, 0) /\ TLCSet(2, 0)
 
 HoldOf(id) == IF id \in DOMAIN hold THEN hold[id] ELSE 0
 HoldAdd(id, d) == [x \in (DOMAIN hold \cup {id}) |-> IF x = id THEN HoldOf(id) + d ELSE hold[x]]
@@ -40,6 +40,8 @@ ObsOK(e, exp, h) ==
     \* accounted size within capacity.  shard.metaAdd evicts until size < capacity and THEN links the new entry, so right
     \* after an insertion (and until the next one) the size may exceed the capacity by less than the inserted value.
     /\ (e.resv = 0 => (e.size <= e.max \/ e.size < e.max + (IF e.op \in {"set", "rhset"} THEN e.vsize ELSE li)))
+    \* the property's literal clause (size <= capacity after every completed op) is counted, not enforced: see KNOWN_FINDINGS (C34)
+    /\ (IF e.resv = 0 /\ e.size > e.max THEN TLCSet(2, TLCGet(2) + 1) ELSE TRUE)
     /\ li' = (IF e.op \in {"set", "rhset"} THEN e.vsize ELSE li)
     /\ st' = [k \in TK |-> e.present[k]]
 
@@ -100,5 +102,5 @@ TraceNext == NewCache \/ SetOp \/ GetOp \/ RelOp \/ DelOp \/ DropKeys \/ Other \
              \/ RStart \/ RArrive \/ ROk \/ RErr \/ NoFollow
 TraceSpec == TraceInit /\ [][TraceNext]_tvars
 HWM == IF l - 1 > TLCGet(1) THEN TLCSet(1, l - 1) ELSE TRUE
-TraceAccepted == PrintT(<<"HWM", TLCGet(1)>>) /\ TLCGet(1) = Len(Trace)
+TraceAccepted == PrintT(<<"HWM", TLCGet(1)>>) /\ PrintT(<<"OVERCAP", TLCGet(2)>>) /\ TLCGet(1) = Len(Trace)
 =============================================================================
